@@ -148,7 +148,9 @@ function spliceRunnable (rng, code, module, maxSplices = 3) {
   let ast
   try { ast = A.parse(code, { module }) } catch (e) { return null }
   if (hasD7Shape(ast)) return null
-  const cands = candidates(ast).filter(c => c.inFn && c.type !== 'Literal' && c.type !== 'TemplateLiteral')
+  // (an array literal passed to a call may be the argument list of .apply: wrapping it would make the documented
+  // literal-list requirement of X.prototype.m.apply inapplicable - known finding D19)
+  const cands = candidates(ast).filter(c => c.inFn && c.type !== 'Literal' && c.type !== 'TemplateLiteral' && !(c.type === 'ArrayExpression' && c.parent === 'CallExpression'))
   if (!cands.length) return null
   const n = Math.min(cands.length, rng.range(1, maxSplices))
   const chosen = []
